@@ -176,8 +176,14 @@ static void exec(json d) {
     } else if (e == "Sum8" || e == "Sum16" || e == "Crc16" || e == "Crc32") {
         Bytes in = bytes_of(d["in"]); InBuf ib(in);
         r["in"] = d["in"];
-        if (e == "Sum8") r["ret"] = (int)tbox::util::CalcCheckSum8(ib.p, ib.n);
-        else if (e == "Sum16") r["ret"] = (int)tbox::util::CalcCheckSum16(ib.p, ib.n);
+        if (e == "Sum8") {                                            // ver: the function again on input ++ its own checksum
+            uint8_t c = tbox::util::CalcCheckSum8(ib.p, ib.n); r["ret"] = (int)c;
+            Bytes w = in; w.push_back(c); InBuf wb(w); r["ver"] = (int)tbox::util::CalcCheckSum8(wb.p, wb.n);
+        } else if (e == "Sum16") {
+            uint16_t c = tbox::util::CalcCheckSum16(ib.p, ib.n); r["ret"] = (int)c;
+            Bytes w = in; if (w.size() & 1) w.push_back(0); w.push_back((uint8_t)(c >> 8)); w.push_back((uint8_t)c);
+            InBuf wb(w); r["ver"] = (int)tbox::util::CalcCheckSum16(wb.p, wb.n);
+        }
         else if (e == "Crc16") r["ret"] = (int)tbox::util::CalcCrc16(ib.p, ib.n);
         else { uint32_t c = tbox::util::CalcCrc32(ib.p, ib.n); r["ret"] = {(int)(c >> 16), (int)(c & 0xffff)}; }
     } else if (e == "Md5") {
@@ -347,6 +353,20 @@ struct Gen {
             json in = jbytes(tbox::http::UrlEncode(str_of(bytes_of(bytes())), rng.chance(50)));
             if (rng.chance(50)) mutate(in, "%gG1aF%");
             if (rng.chance(15)) in = chars("%%%41gG0fF z", rng.below(8));
+            c["in"] = in;
+        } else if ((k == "Sum8" || k == "Sum16") && rng.chance(50)) {
+            // carry-boundary family: random units (bytes / big-endian words), then a last unit chosen so that ONE fold of the
+            // plain sum, (S div m) + (S mod m), lands on m-2 .. m+2 - where a second end-around carry is (or is just not) due
+            const uint32_t m = k == "Sum8" ? 256 : 65536;
+            size_t n = rng.chance(70) ? (size_t)rng.below(6) : (size_t)rng.below(60);
+            std::vector<uint32_t> u; uint64_t S = 0;
+            for (size_t i = 0; i < n; ++i) { uint32_t x = rng.chance(40) ? m - 1 - (uint32_t)rng.below(3) : rng.chance(30) ? (uint32_t)rng.below(3) : (uint32_t)rng.below(m); u.push_back(x); S += x; }
+            uint32_t target = m - 2 + (uint32_t)rng.below(5), start = (uint32_t)rng.below(m), last = start;
+            for (uint32_t i = 0; i < m; ++i) { uint32_t w = (start + i) % m; uint64_t T = S + w; if ((T / m) + (T % m) == target) { last = w; break; } }
+            u.insert(u.begin() + rng.below(u.size() + 1), last);
+            json in = json::array();
+            for (uint32_t x : u) { if (m == 65536) in.push_back((int)(x >> 8)); in.push_back((int)(x & 0xff)); }
+            if (m == 65536 && rng.chance(25)) in.push_back(rng.chance(50) ? 0 : byte());          // odd trailing byte
             c["in"] = in;
         } else if (k == "Sum8" || k == "Sum16" || k == "Crc16" || k == "Crc32") { c["in"] = rng.chance(10) ? bytes(rng.below(120)) : bytes(); }
         else if (k == "Md5") {
